@@ -290,6 +290,16 @@ def install(eng):
         call.m.event("panic", call.fr.fn.short, msg)
         return Panic(f"{call.fr.fn.short}: {msg}")
 
+    @on(r"^Option::unwrap_or$|^Result::unwrap_or$")
+    def _unwrap_or(call):
+        a = call.argv[0]
+        is_opt = call.norm.startswith("Option")
+        k = discr_choice(call, a, ("unwrap_or", call.fr.bb))
+        good = 1 if is_opt else 0
+        if k == good:
+            return eng.force(eng.field_cell(a, ("Some" if is_opt else "Ok", 0), None, "unwrapped"))
+        return call.argv[1]
+
     @on(r"^<Result as Try>::branch$")
     def _res_branch(call):
         a = call.argv[0]
@@ -501,58 +511,247 @@ def install(eng):
             return v
         return NotImplemented
 
-    @on(r"Iterator>::enumerate$|^Iter::enumerate$")
-    def _enumerate(call):
+    # ---------------------------------------------------------------- iterator pipelines (lazy adaptors + closures)
+    @on(r"Iterator>::(enumerate|map|filter_map|filter)$|^Iter::(enumerate|map|filter_map|filter)$|^IntoIter::(enumerate|map|filter_map|filter)$")
+    def _adaptor(call):
         it = call.argv[0]
-        if isinstance(it, IterVal):
-            return IterVal(it.items[it.pos:], "enumerate:" + it.kind)
-        return NotImplemented
+        if not isinstance(it, IterVal):
+            return NotImplemented
+        name = call.norm.split("::")[-1]
+        it.stages.append((name, call.argv[1] if len(call.argv) > 1 else None))
+        return it
 
-    @on(r"as Iterator>::next$")
-    def _iter_next(call):
+    def source_value(it, item):
+        kind = it.kind
+        if kind == "vec_into_iter":
+            return eng.force(item)
+        if kind == "slice_iter":
+            return Ref(item)
+        if kind == "map_iter":
+            t = Adt("(tuple)", None)
+            t.fields[(None, 0)] = Cell(Ref(item[0]), None, "k")
+            t.fields[(None, 1)] = Cell(Ref(item[1]), None, "v")
+            return t
+        if kind == "map_values":
+            return Ref(item[1])
+        raise Unsupported("iterator kind " + kind)
+
+    def tuple2(a, b):
+        t = Adt("(tuple)", None)
+        t.fields[(None, 0)] = Cell(a, None, "t.0")
+        t.fields[(None, 1)] = Cell(b, None, "t.1")
+        return t
+
+    class Drive:
+        """Continuation of a terminal iterator operation across closure calls (deep-copied with the machine)."""
+
+        def __init__(self, it, consumer, closure, dest, ret_bb, is_result=False):
+            self.it = it
+            self.consumer = consumer
+            self.closure = closure
+            self.dest = dest
+            self.ret_bb = ret_bb
+            self.stage = 0
+            self.cur = None
+            self.phase = "pull"
+            self.acc = []
+            self.is_result = is_result
+            self.tick = 0
+
+    def deliver(m, drv, value):
+        fr = m.frames[-1]
+        c = eng.place_cell(m, fr, drv.dest)
+        c.val = value
+        if drv.ret_bb is None:
+            m.outcome = ("panic", "diverging iterator op")
+            raise __import__("uv.mirsym.engine", fromlist=["_Stop"])._Stop()
+        eng.goto(m, fr, drv.ret_bb)
+
+    def push_closure(m, drv, f, args):
+        """Call closure f(args...) with the drive as the continuation. Returns False when f is not a crate closure."""
+        if isinstance(f, Ref):
+            f = eng.force(f.cell)
+        fn = None
+        if isinstance(f, Adt) and isinstance(f.ty, str) and f.ty.startswith("{closure@"):
+            fn = eng.closures.get(f.ty)
+            if fn is None:
+                raise UnknownCallee("closure body " + f.ty)
+            p0 = fn.params[0][1]
+            argv = [Ref(Cell(f, None, "closure")) if p0.startswith("&") else f] + list(args)
+        elif isinstance(f, FnItem):
+            norm = __import__("uv.mirsym.engine", fromlist=["normalise_callee"]).normalise_callee(f.name)
+            fn = eng.resolve(f.name, norm, args)
+            if fn is None:
+                raise UnknownCallee("fn item " + f.name)
+            argv = list(args)
+        else:
+            raise UnknownCallee("opaque closure in iterator pipeline")
+        nf = Frame(fn)
+        for (loc, ty), v in zip(fn.params, argv):
+            nf.locals[loc] = Cell(v, ty, f"{fn.short}:{loc}")
+        nf.dest = None
+        nf.ret_bb = None
+        nf.note = ("iterdrive", drv)
+        m.frames.append(nf)
+        m.event("call", fn.raw_name)
+        return True
+
+    def drive(m, drv, incoming=None):
+        """Run the pipeline until it needs a closure (frame pushed; returns 'await') or finishes (delivered)."""
+        it = drv.it
+        while True:
+            drv.tick += 1
+            if drv.tick > 400:
+                raise Unsupported("iterator pipeline too long")
+            if incoming is not None:
+                res, incoming = incoming[0], None
+                if drv.phase == "stage":
+                    name = it.stages[drv.stage][0]
+                    if name == "map":
+                        drv.cur = res
+                        drv.stage += 1
+                    elif name == "filter_map":
+                        k = eng.decide(m, ("drv_fm", it.pos, drv.stage), [eng.discr_of(res).e == 0, eng.discr_of(res).e == 1])
+                        if k == 0:
+                            drv.phase = "pull"
+                        else:
+                            drv.cur = eng.force(eng.field_cell(res, ("Some", 0), None, "fm"))
+                            drv.stage += 1
+                    elif name == "filter":
+                        k = eng.decide(m, ("drv_f", it.pos, drv.stage), [res.e, z3.Not(res.e)])
+                        if k == 0:
+                            drv.stage += 1
+                        else:
+                            drv.phase = "pull"
+                elif drv.phase == "consume":
+                    c = drv.consumer
+                    if c in ("find", "any", "all", "position"):
+                        k = eng.decide(m, ("drv_c", it.pos), [res.e, z3.Not(res.e)])
+                        hit = (k == 0)
+                        if c == "find" and hit:
+                            return ("done", mk_enum("Option", "Some", drv.cur))
+                        if c == "any" and hit:
+                            return ("done", Bool(z3.BoolVal(True)))
+                        if c == "all" and not hit:
+                            return ("done", Bool(z3.BoolVal(False)))
+                        if c == "position" and hit:
+                            return ("done", mk_enum("Option", "Some", Int(z3.BitVecVal(len(drv.acc), 64), 64, False)))
+                        drv.acc.append(None)
+                        drv.phase = "pull"
+                    elif c == "find_map":
+                        k = eng.decide(m, ("drv_c", it.pos), [eng.discr_of(res).e == 0, eng.discr_of(res).e == 1])
+                        if k == 1:
+                            return ("done", res)
+                        drv.phase = "pull"
+                    elif c == "for_each":
+                        drv.phase = "pull"
+                continue
+            if drv.phase == "pull":
+                if it.extra == "unknown_prefix":
+                    raise Unsupported("stepping an iterator over a Vec with unknown prefix (harness must fix the length)")
+                if it.pos >= len(it.items):
+                    c = drv.consumer
+                    if c in ("next", "find", "find_map", "position"):
+                        return ("done", mk_enum("Option", "None"))
+                    if c == "any":
+                        return ("done", Bool(z3.BoolVal(False)))
+                    if c == "all":
+                        return ("done", Bool(z3.BoolVal(True)))
+                    if c == "for_each":
+                        return ("done", UNIT)
+                    if c == "collect":
+                        v = VecVal(None, [Cell(x, None, f"collected[{i}]") for i, x in enumerate(drv.acc)], "Vec")
+                        return ("done", mk_enum("Result", "Ok", v) if drv.is_result else v)
+                    raise Unsupported("consumer " + c)
+                item = it.items[it.pos]
+                m.event("iter_next", it.kind, it.pos)
+                it.pos += 1
+                drv.cur = source_value(it, item)
+                drv.stage = 0
+                drv.phase = "stage"
+            if drv.phase == "stage":
+                if drv.stage >= len(it.stages):
+                    drv.phase = "consume"
+                else:
+                    name, clo = it.stages[drv.stage]
+                    if name == "enumerate":
+                        drv.cur = tuple2(Int(z3.BitVecVal(it.count, 64), 64, False), drv.cur)
+                        it.count += 1
+                        drv.stage += 1
+                        continue
+                    arg = Ref(Cell(drv.cur, None, "item")) if name == "filter" else drv.cur
+                    push_closure(m, drv, clo, [arg])
+                    return ("await", None)
+            if drv.phase == "consume":
+                c = drv.consumer
+                if c == "next":
+                    drv.phase = "pull"
+                    return ("done", mk_enum("Option", "Some", drv.cur))
+                if c == "collect":
+                    if drv.is_result:
+                        k = eng.decide(m, ("drv_cr", it.pos), [eng.discr_of(drv.cur).e == 0, eng.discr_of(drv.cur).e == 1])
+                        if k == 1:
+                            return ("done", mk_enum("Result", "Err", eng.force(eng.field_cell(drv.cur, ("Err", 0), None, "e"))))
+                        drv.acc.append(eng.force(eng.field_cell(drv.cur, ("Ok", 0), None, "ok")))
+                    else:
+                        drv.acc.append(drv.cur)
+                    drv.phase = "pull"
+                    continue
+                arg = Ref(Cell(drv.cur, None, "item")) if c == "find" else drv.cur
+                push_closure(m, drv, drv.closure, [arg])
+                return ("await", None)
+
+    def on_drive_return(m, drv, val):
+        """Called by Engine.do_return when a closure frame with an ('iterdrive', drv) note returns."""
+        st, out = drive(m, drv, incoming=(val,))
+        return st, out
+
+    eng.on_drive_return = on_drive_return
+    eng.drive_deliver = deliver
+
+    def start_drive(call, consumer, closure=None):
         r = call.argv[0]
         it = r.cell.val if isinstance(r, Ref) else r
         if not isinstance(it, IterVal):
             return NotImplemented
-        if it.extra == "unknown_prefix":
-            raise Unsupported("stepping an iterator over a Vec with unknown prefix (harness must fix the length)")
-        if it.pos >= len(it.items):
-            return mk_enum("Option", "None")
-        i = it.pos
-        item = it.items[i]
-        it.pos += 1
-        kind = it.kind
-        enum_idx = None
-        if kind.startswith("enumerate:"):
-            kind = kind[len("enumerate:"):]
-            enum_idx = i
-        if kind == "vec_into_iter":
-            val = eng.force(item)
-        elif kind == "slice_iter":
-            val = Ref(item)
-        elif kind == "map_iter":
-            t = Adt("(tuple)", None)
-            t.fields[(None, 0)] = Cell(Ref(item[0]), None, "k")
-            t.fields[(None, 1)] = Cell(Ref(item[1]), None, "v")
-            val = t
-        elif kind == "map_values":
-            val = Ref(item[1])
-        else:
-            raise Unsupported("iterator kind " + kind)
-        if enum_idx is not None:
-            t = Adt("(tuple)", None)
-            t.fields[(None, 0)] = Cell(Int(z3.BitVecVal(enum_idx, 64), 64, False), None, "i")
-            t.fields[(None, 1)] = Cell(val, None, "item")
-            val = t
-        call.m.event("iter_next", kind, i)
-        return mk_enum("Option", "Some", val)
+        is_result = consumer == "collect" and "Result" in call.callee.split("collect", 1)[-1]
+        drv = Drive(it, consumer, closure, call.dest, call.ret_bb, is_result)
+        st, out = drive(call.m, drv)
+        if st == "done":
+            return out
+        return Inlined()
 
-    @on(r"Iterator>::(any|all)$|^Iter::(any|all)$")
-    def _iter_any(call):
-        # over-approximation: the elements are arbitrary, so the closure's verdict over them is an unconstrained boolean
-        # (extra behaviours only; every counterexample is replayed natively before it is reported)
-        call.m.event("iter_any", call.norm)
-        return Bool(eng.fresh_bool("any_over_elements"))
+    @on(r"as Iterator>::next$")
+    def _iter_next(call):
+        return start_drive(call, "next")
+
+    @on(r"Iterator>::(find|find_map|any|all|position|for_each)$|^(Iter|IntoIter|Enumerate|Map|FilterMap|Filter)::(find|find_map|any|all|position|for_each)$")
+    def _iter_terminal(call):
+        r = call.argv[0]
+        it = r.cell.val if isinstance(r, Ref) else r
+        name = call.norm.split("::")[-1]
+        if isinstance(it, IterVal) and it.extra == "unknown_prefix" and name in ("any", "all"):
+            # over-approximation: the elements are arbitrary, so the closure's verdict over them is an unconstrained
+            # boolean (extra behaviours only; every counterexample is replayed natively before it is reported)
+            call.m.event("iter_any", call.norm)
+            return Bool(eng.fresh_bool("any_over_elements"))
+        return start_drive(call, name, call.argv[1])
+
+    @on(r"Iterator>::collect$|^(Iter|IntoIter|Enumerate|Map|FilterMap|Filter)::collect$")
+    def _iter_collect(call):
+        return start_drive(call, "collect")
+
+    @on(r"^Option::transpose$")
+    def _opt_transpose(call):
+        a = call.argv[0]
+        k = discr_choice(call, a, ("transpose", call.fr.bb))
+        if k == 0:
+            return mk_enum("Result", "Ok", mk_enum("Option", "None"))
+        inner = eng.force(eng.field_cell(a, ("Some", 0), None, "some"))
+        k2 = eng.decide(call.m, ("transpose2", call.fr.bb), [eng.discr_of(inner).e == 0, eng.discr_of(inner).e == 1])
+        if k2 == 0:
+            return mk_enum("Result", "Ok", mk_enum("Option", "Some", eng.force(eng.field_cell(inner, ("Ok", 0), None, "ok"))))
+        return mk_enum("Result", "Err", eng.force(eng.field_cell(inner, ("Err", 0), None, "err")))
 
     @on(r"(^|::)mem::discriminant$|^discriminant$")
     def _mem_discr(call):
